@@ -333,6 +333,47 @@ def run(ctx, tier):
                         'node\'s parent": a node that would become strictly cheaper through the new node keeps its old parent', loc=fn.loc(blk)))
         if not stores:
             r_rew.violations.append(Violation('C17', 'C17.rewire', p['adt'], 'no-rewire', 'no write to an existing node found in %s (no rewiring?)' % p['name']))
+        # ---- every node that is added gets its rewire pass: on every way from the push to the end of the iteration (the
+        # way back to the head of the main loop, or a return) the rewire loop - or the call of the helper that holds it - is
+        # passed.  An early exit between the push and the pass (returning as soon as the new node satisfies the goal, say)
+        # leaves neighbours that would be cheaper through that node with their old parent and cost.
+        store_fns = {}
+        for stw in stores:
+            store_fns.setdefault(stw['fn'].path, []).append(stw)
+        for pu in P.pushes(ctx, p):
+            if pu['in_setup']:
+                continue
+            fn, b, bi = pu['fn'], pu['body'], pu['block']
+            sites = set()
+            for stw in store_fns.get(fn.path, []):
+                Ls = [L for L in fn.loops() if stw['block'] in L['body'] and bi not in L['body']]
+                if Ls:
+                    sites.add(min(Ls, key=lambda l: len(l['body']))['header'])
+            for cb_, t_ in b.calls():
+                callee = t_['func'].get('resolved', {}).get('path') or t_['func'].get('path')
+                if callee in store_fns and callee != fn.path:
+                    sites.add(cb_)
+            if not sites:
+                if stores:
+                    r_rew.inst('%s: the rewire pass is not in the function that adds the node, nor in a helper it calls (decided in the inlined view)' % b.path,
+                               ok=True, nontrivial=False)
+                continue
+            main = [L for L in fn.loops() if bi in L['body']]
+            heads = {min(main, key=lambda l: len(l['body']))['header']} if main else set()
+            start = fn.blocks[bi]['term'].get('target')
+            reach = fn.reachable(start, stop=frozenset(sites)) if start is not None else set()
+            ends = (set(fn.return_blocks()) | heads) - sites
+            # a return that reports an error (timeout) is not the end of an iteration that added a node... it is still after the
+            # push, so it counts: the property speaks of every node that is added
+            bad = sorted(x for x in reach if x in ends)
+            okp = not bad
+            r_rew.inst('%s: the node pushed at %s gets its rewire pass before the iteration ends' % (b.path, fn.loc(bi)), ok=okp, site=fn.loc(bi))
+            if not okp:
+                r_rew.violations.append(Violation(
+                    'C17', 'C17.rewire', b.path, 'pass-skipped',
+                    'after the node is pushed at %s the iteration can end (at %s) without the rewire pass over its neighbours: nodes that '
+                    'would be strictly cheaper through the new node keep their old parent and cost' % (fn.loc(bi), ', '.join(fn.loc(x) for x in bad[:3])),
+                    loc=fn.loc(bi)))
 
     # ---------------------------------------------------------------- sibling
     sig = {}
